@@ -66,6 +66,8 @@ func init() { core.Sub["c05proc"] = c05Proc }
 type c05RealCase struct {
 	Step string `json:"step"` // behaviour of the running step
 	Stop string `json:"stop"` // sigterm | cli-stop | timeout
+	// DelayMs: how long after the step was seen running the stop is sent
+	DelayMs int `json:"stopDelayMs"`
 }
 
 type procEv struct {
@@ -107,17 +109,26 @@ func c05RealBody(c *core.Ctx) {
 	steps := []string{"sleep", "sh-wrapper", "exit-on-term", "ignore-term", "pipe-holder", "signal-on-stop", "two-running+pending", "repeating"}
 	stops := []string{"sigterm", "cli-stop", "timeout"}
 	idx := 0
-	for _, st := range steps {
-		for _, sp := range stops {
-			if !c.Mine(idx) {
+	delays := []int{150}
+	if !c.Quick() {
+		delays = []int{150, 0, 20, 700}
+	}
+	for _, dl := range delays {
+		for _, st := range steps {
+			for _, sp := range stops {
+				if sp == "timeout" && dl != 150 {
+					continue // the timeout comes by itself
+				}
+				if !c.Mine(idx) {
+					idx++
+					continue
+				}
+				cs := c05RealCase{st, sp, dl}
+				c.Begin(idx, cs)
+				c05RealTrial(c, idx, self, cs)
+				c.End(idx)
 				idx++
-				continue
 			}
-			cs := c05RealCase{st, sp}
-			c.Begin(idx, cs)
-			c05RealTrial(c, idx, self, cs)
-			c.End(idx)
-			idx++
 		}
 	}
 }
@@ -230,7 +241,7 @@ func c05RealTrial(c *core.Ctx, idx int, self string, cs c05RealCase) {
 		c.Inconclusive(fmt.Sprintf("c05 real %+v: the step never started: %s", cs, clip(out.String(), 300)))
 		return
 	}
-	time.Sleep(150 * time.Millisecond)
+	time.Sleep(time.Duration(cs.DelayMs) * time.Millisecond)
 	c.Eval(1)
 	tStop := time.Now()
 	switch cs.Stop {
@@ -357,6 +368,6 @@ func c05RealTrial(c *core.Ctx, idx int, self string, cs c05RealCase) {
 	if !has("END", "onexit") {
 		c.Violate(idx, "real-no-onexit|"+key, "the run ended without executing its exit handler", desc)
 	}
-	c.Sig("real", cs.Step, cs.Stop)
+	c.Sig("real", cs.Step, cs.Stop, cs.DelayMs)
 	c.Sample(map[string]any{"case": cs, "took_s": took.Seconds(), "events": lines, "recorded": got})
 }
